@@ -51,10 +51,8 @@ SDPowerSet::Iterator::reference SDPowerSet::Iterator::operator*() const {
 }
 
 bool SDPowerSet::Iterator::operator==(const Iterator& rhs) const noexcept {
-  if (isCompleted && rhs.isCompleted) {
-    return true;
-  } else if (rhs.isCompleted) {
-    return false;
+  if (isCompleted || rhs.isCompleted) {
+    return isCompleted == rhs.isCompleted;
   } else {
     return counter == rhs.counter;
   }
@@ -171,10 +169,8 @@ SDDecartian::Iterator::reference SDDecartian::Iterator::operator*() const {
 }
 
 bool SDDecartian::Iterator::operator==(const Iterator& rhs) const noexcept {
-  if (isCompleted && rhs.isCompleted) {
-    return true;
-  } else if (rhs.isCompleted) {
-    return false;
+  if (isCompleted || rhs.isCompleted) {
+    return isCompleted == rhs.isCompleted;
   } else {
     return counter == rhs.counter;
   }
